@@ -52,6 +52,7 @@ type Obl struct {
 	Size     int
 	Skolems  []smt.SkInfo
 	Support  bool // belongs to a used module (supporting contract)
+	Weak     bool // the counterexample satisfies only an instantiated (ground) query; the quantified query was inconclusive
 	rep      *sym.FuncReport
 	worstQ   *smt.Query
 }
@@ -316,6 +317,9 @@ func genModule(pkgs []*packages.Package, m *Module, byName map[string]*Module, o
 				rr.Trusted = append(rr.Trusted, m.Name+": "+rep.Func+" (contract assumed, not verified)")
 			}
 		}
+		if fs := m.Spec.Funcs[key]; fs != nil && fs.WideInt {
+			rr.Inputs = append(rr.Inputs, "machine arithmetic treated as mathematical in "+m.Name+": "+rep.Func+": + - * on 64-bit integers (element counters and sums of lengths) is not checked for overflow; narrower integer types are")
+		}
 		if rr.Locals == nil {
 			rr.Locals = map[string][]sym.LocalInfo{}
 		}
@@ -563,7 +567,7 @@ func Run(opt Options, own, used []*Module, all []*Module) *RunResult {
 			sem <- struct{}{}
 			defer func() { <-sem }()
 			canary := strings.HasSuffix(j.obl.Name, "#canary") || strings.HasSuffix(j.obl.Name, "#axioms-consistent") || kindOf(j.obl.Name) == "cover"
-			o := smt.Options{Timeout: timeout, QuantTimeout: 5 * time.Second, DumpDir: opt.DumpDir, Seed: opt.Seed}
+			o := smt.Options{Timeout: timeout, QuantTimeout: timeout / 2, DumpDir: opt.DumpDir, Seed: opt.Seed}
 			if canary {
 				// a canary is expected to be sat/unknown: do not spend the full timeout on it
 				o.Timeout = 3 * time.Second
@@ -613,6 +617,7 @@ func Run(opt Options, own, used []*Module, all []*Module) *RunResult {
 			o.Raw = worst.res.Raw
 			o.worstQ = worst.q
 			o.Skolems = worst.res.GoalSkolems
+			o.Weak = worst.res.Weak
 		}
 		if o.Kind == "cover" {
 			// reachability goal: it holds unless every normal exit is refuted together with the cover condition
